@@ -673,7 +673,7 @@ def main():
       jm3 = ex.submit(tlc.run, "ArgBind", model_cfg(3, 5, 3, False), workers=6, timeout=6000, seed=run.seed)
     # histories: (a) the phase machine with Return / SetDefaults interleaved with the calls (quick:
     # <= 1 parameter of each kind, two re-assignments; thorough: <= 2 of each kind, one), (b) the
-    # re-assignment laws for every call shape of the full bounds on every (definition, history)
+    # re-assignment laws for every call shape of the export bounds on every (definition, history)
     # (quick: one re-assignment, thorough: two), (c) the export of (definition, history, sensitive
     # call shapes)
     hmach = (2, 3, 2, False, 1) if thorough else (1, 2, 2, True, 2)
